@@ -105,6 +105,15 @@ def check(pid, tier, seed):
                         if 'handover' in kinds[j:]:
                             sc_ += 10
                             break
+                # chunks of one refresh completing out of order (what is merged from which chunk, and when, matters)
+                cs = []
+                for e in evs:
+                    if e['e'] == 'process':
+                        cs = []
+                    elif e['e'] == 'fetch':
+                        if cs and e['c'] < cs[-1]:
+                            sc_ += 6
+                        cs.append(e['c'])
                 # refresh steps inside the window where the new height is visible but not committed
                 inwin = False
                 for k in kinds:
